@@ -1,6 +1,7 @@
 package c10
 
 import (
+	"time"
 	"context"
 	"encoding/json"
 	"fmt"
@@ -89,9 +90,17 @@ func concRound(c *ConcCase, o *vkit.Outcome, round int) {
 				// busy timeout).  A refused append wrote nothing; the writer
 				// tries again, as a caller would.  No listed property promises
 				// that concurrent direct appends succeed at once.
-				for tries := 0; err != nil && tries < 2000 && isBusy(err); tries++ {
+				// The retries back off and are bounded by time, not by count:
+				// on a loaded machine a writer can lose the race for the
+				// write lock thousands of times in a row.
+				began := time.Now()
+				for tries := 0; err != nil && isBusy(err) && time.Since(began) < 90*time.Second; tries++ {
 					busy.Add(1)
-					runtime.Gosched()
+					if tries < 20 {
+						runtime.Gosched()
+					} else {
+						time.Sleep(time.Duration(50*min(tries, 60)) * time.Microsecond)
+					}
 					off, err = st.Append(ctx, &eventbus.Event{Type: "conc", Data: data})
 				}
 				if err != nil {
@@ -124,6 +133,10 @@ func concRound(c *ConcCase, o *vkit.Outcome, round int) {
 				return
 			}
 			tail = append(tail, page...)
+			if len(tail) > 3*total+10 {
+				readerErr.Store(fmt.Sprintf("the tailing reader (chained Read with limit %d) has received %d events, only %d were appended: the returned next offset does not move past the page", c.Limit, len(tail), total))
+				return
+			}
 			if len(page) > 0 {
 				cur = next
 				idle = 0
@@ -179,6 +192,10 @@ func concRound(c *ConcCase, o *vkit.Outcome, round int) {
 		}
 		all = append(all, page...)
 		cur = next
+		if len(all) > 3*total+10 {
+			o.Failf("", "%s: a chain of unlimited reads resumed from next offsets has returned %d events and does not end; %d were appended", desc, len(all), total)
+			return
+		}
 	}
 	check := func(what string, evs []*eventbus.StoredEvent) bool {
 		if len(evs) != total {
